@@ -1270,7 +1270,18 @@ EXTRA_METHODS = {}
 EXTRA_ELEMENT_HOOKS = []
 
 
+def _b_chain_from_iterable(eng, args, kwargs):
+    """itertools.chain.from_iterable(X) = itertools.chain(*X)"""
+    sv = args[0]
+    chain = lookup_model(itertools.chain)
+    if hasattr(sv, "__pyvc_star__"):
+        return chain(eng, [sv.__pyvc_star__(eng)], {})
+    return chain(eng, list(eng.iterate_concrete(sv)), {})
+
+
 def lookup_model(fn):
+    if fn == itertools.chain.from_iterable:
+        return _b_chain_from_iterable
     try:
         m = EXTRA_MODELS.get(fn)
         if m is None:
